@@ -262,7 +262,11 @@ where
                 // resume incomplete search after previous read_record_set(), or
                 // after a seek() call.
                 if !try_opt!(self.resume_incomplete_search(pos, is_new)) {
-                    return None;
+                    // end of input: return the records collected so far (if any)
+                    if rset.buf_positions.is_empty() {
+                        return None;
+                    }
+                    break;
                 }
             } else {
                 // search the next complete record after `next()`, or in
